@@ -41,6 +41,38 @@ using std::pair;
 using std::string;
 
 /**
+ * Using-directives may form a cycle, as in "namespace A { using namespace A; }"
+ * or two namespaces that use each other.  A lookup that follows them keeps
+ * track, with one of these, of the scopes it is in the middle of searching for
+ * the same name, so that it does not go around forever.
+ */
+class UsingSearchGuard {
+public:
+  typedef std::pair<const CPPScope *, std::string> Search;
+  typedef std::set<Search> Searches;
+
+  UsingSearchGuard(Searches &active, const CPPScope *scope,
+                   const std::string &name) :
+    _active(active),
+    _search(scope, name),
+    _entered(active.insert(_search).second) {
+  }
+  ~UsingSearchGuard() {
+    if (_entered) {
+      _active.erase(_search);
+    }
+  }
+  bool entered() const {
+    return _entered;
+  }
+
+private:
+  Searches &_active;
+  Search _search;
+  bool _entered;
+};
+
+/**
  *
  */
 CPPScope::
@@ -547,11 +579,15 @@ find_type(const string &name, bool recurse) const {
     return ti->second;
   }
 
-  Using::const_iterator ui;
-  for (ui = _using.begin(); ui != _using.end(); ++ui) {
-    CPPType *type = (*ui)->find_type(name, false);
-    if (type != nullptr) {
-      return type;
+  static UsingSearchGuard::Searches using_search_1;
+  UsingSearchGuard using_guard(using_search_1, this, name);
+  if (using_guard.entered()) {
+    Using::const_iterator ui;
+    for (ui = _using.begin(); ui != _using.end(); ++ui) {
+      CPPType *type = (*ui)->find_type(name, false);
+      if (type != nullptr) {
+        return type;
+      }
     }
   }
 
@@ -591,11 +627,15 @@ find_type(const string &name, CPPDeclaration::SubstDecl &subst,
       (subst, current_scope, global_scope)->as_type();
   }
 
-  Using::const_iterator ui;
-  for (ui = _using.begin(); ui != _using.end(); ++ui) {
-    CPPType *type = (*ui)->find_type(name, subst, global_scope, false);
-    if (type != nullptr) {
-      return type;
+  static UsingSearchGuard::Searches using_search_2;
+  UsingSearchGuard using_guard(using_search_2, this, name);
+  if (using_guard.entered()) {
+    Using::const_iterator ui;
+    for (ui = _using.begin(); ui != _using.end(); ++ui) {
+      CPPType *type = (*ui)->find_type(name, subst, global_scope, false);
+      if (type != nullptr) {
+        return type;
+      }
     }
   }
 
@@ -680,11 +720,15 @@ find_scope(const string &name, CPPScope *global_scope, bool recurse) const {
     }
   }
 
-  Using::const_iterator ui;
-  for (ui = _using.begin(); ui != _using.end(); ++ui) {
-    CPPScope *scope = (*ui)->find_scope(name, global_scope, false);
-    if (scope != nullptr) {
-      return scope;
+  static UsingSearchGuard::Searches using_search_3;
+  UsingSearchGuard using_guard(using_search_3, this, name);
+  if (using_guard.entered()) {
+    Using::const_iterator ui;
+    for (ui = _using.begin(); ui != _using.end(); ++ui) {
+      CPPScope *scope = (*ui)->find_scope(name, global_scope, false);
+      if (scope != nullptr) {
+        return scope;
+      }
     }
   }
 
@@ -761,11 +805,15 @@ find_symbol(const string &name, bool recurse) const {
     return (*vi).second;
   }
 
-  Using::const_iterator ui;
-  for (ui = _using.begin(); ui != _using.end(); ++ui) {
-    CPPDeclaration *decl = (*ui)->find_symbol(name, false);
-    if (decl != nullptr) {
-      return decl;
+  static UsingSearchGuard::Searches using_search_4;
+  UsingSearchGuard using_guard(using_search_4, this, name);
+  if (using_guard.entered()) {
+    Using::const_iterator ui;
+    for (ui = _using.begin(); ui != _using.end(); ++ui) {
+      CPPDeclaration *decl = (*ui)->find_symbol(name, false);
+      if (decl != nullptr) {
+        return decl;
+      }
     }
   }
 
@@ -802,11 +850,15 @@ find_template(const string &name, bool recurse) const {
     return (*ti).second;
   }
 
-  Using::const_iterator ui;
-  for (ui = _using.begin(); ui != _using.end(); ++ui) {
-    CPPDeclaration *decl = (*ui)->find_template(name, false);
-    if (decl != nullptr) {
-      return decl;
+  static UsingSearchGuard::Searches using_search_5;
+  UsingSearchGuard using_guard(using_search_5, this, name);
+  if (using_guard.entered()) {
+    Using::const_iterator ui;
+    for (ui = _using.begin(); ui != _using.end(); ++ui) {
+      CPPDeclaration *decl = (*ui)->find_template(name, false);
+      if (decl != nullptr) {
+        return decl;
+      }
     }
   }
 
